@@ -3,7 +3,7 @@
    Models: Model/FileView.v (FileView after b7f68e8, ec4dfa8), Model/Chunker.v
    (split_file_into_chunks_by_size), Model/Indexer.v (index_chroms after c270203). *)
 From BT Require Import Base.Util Model.FileView Model.Chunker Model.Indexer.
-From BT Require Import Proofs.FileViewSim Proofs.ChunkerPartition Proofs.IndexerGrouped.
+From BT Require Import Proofs.FileViewSim Proofs.ChunkerPartition Proofs.IndexerGrouped Proofs.IndexerViews.
 Local Open Scope N_scope.
 
 (* ------------------------------------------------------------------ FileView *)
@@ -127,6 +127,17 @@ Print Assumptions C18_index_never_none.
 Theorem C18_groupedb_iff : forall (f : file), groupedb f = true <-> grouped f.
 Proof. intros f. split; [apply groupedb_sound | apply groupedb_complete]. Qed.
 Print Assumptions C18_groupedb_iff.
+
+(* Whatever index_chroms answers, on a grouped file or not: the line streams of the views the
+   parallel source opens at its entries ([e_i, e_{i+1}), the last one to the end of the file), read one
+   after the other, are exactly the lines of the file in order - nothing lost, nothing reordered.
+   ([lines_between] is what a BufReader over such a view delivers when the bounds are line starts;
+   that reading of FileView is checked on the real code, not proved.) *)
+Theorem C18_index_views_concat : forall (limit : nat) (f : file) (ix : list entry),
+  Forall (fun l => 1 <= snd l) f ->
+  index_chroms limit f = Ok (Some ix) -> concat (view_streams f ix) = f.
+Proof. exact index_views_concat. Qed.
+Print Assumptions C18_index_views_concat.
 
 (* Non-vacuity: the two D8 witnesses (the unrepaired bisection answered [(0,1)] on both), and a
    file with a long line inside a run. *)
